@@ -68,6 +68,10 @@ def check_model(rep, drv, gen, rng, m, text, c):
                               {"kind": "validator", "relation": "Schemes.valid_scheme (hybrid: stiff=S, generalized: all, euler: none)",
                                "text": text, "stiff_states": S_given, "delta": delta, "modes": modes, "failing_input": None})
             rep.count("slots_guarded", modes.count("guard")); rep.count("slots_plain", modes.count("plain")); rep.count("slots_euler", modes.count("euler"))
+            if not bad:
+                # the three functions against the verified mirror generator for the same modes: all stiff / S stiff / none stiff
+                so.check_mirror_rl(rep, drv, text, fns["generalized_rush_larsen"]["args"], bodies["generalized_rush_larsen"], ss, modes, ss, delta, ru=ru)
+                so.check_mirror_rl(rep, drv, text, fns["hybrid_rush_larsen"]["args"], bodies["hybrid_rush_larsen"], ss, modes, S, delta, ru=ru)
         except impl.SkeletonError as ex:
             structural = ("statement outside the skeleton: " + str(ex),
                           {"kind": "validator", "relation": "skeleton export", "text": text, "failing_input": None})
